@@ -894,10 +894,12 @@ impl ProtocolState {
                         }
                     }
                     MqttPacket::Publish(publish) => {
-                        if publish.duplicate {
-                            self.resubmit_operation_queue.push_front(id);
-                        } else if publish.qos == QualityOfService::ExactlyOnce && operation.qos2_pubrel.is_some() {
+                        if publish.qos == QualityOfService::ExactlyOnce && operation.qos2_pubrel.is_some() {
+                            // a publish in its pubrel phase is still tracked in the pending publish table and
+                            // gets re-queued from there; it must not be added to the resubmit queue here too
                             self.high_priority_operation_queue.push_front(id);
+                        } else if publish.duplicate {
+                            self.resubmit_operation_queue.push_front(id);
                         } else if does_packet_pass_offline_queue_policy(&operation.packet, &self.config.offline_queue_policy) {
                             self.user_operation_queue.push_front(id);
                         } else {
